@@ -474,6 +474,18 @@ func (c *collection) create(
 	if isDeleted {
 		return NewErrDocumentDeleted(primaryKey.DocID)
 	}
+	if !exists {
+		// exists answers for the requester, who may not be permitted to see the document. A document
+		// that is there must not be created a second time - that is, written into - by anybody.
+		txn := datastore.CtxMustGetTxn(ctx)
+		inStore, err := txn.Datastore().Has(ctx, primaryKey.Bytes())
+		if err != nil {
+			return err
+		}
+		if inStore {
+			return NewErrDocumentAlreadyExists(primaryKey.DocID)
+		}
+	}
 
 	// write value object marker if we have an empty doc
 	if len(doc.Values()) == 0 {
